@@ -670,3 +670,75 @@ func fitUDP(m *AMsg, limit int) {
 		m.Hdrs[li].Value = m.Hdrs[li].Value[:ll-cut]
 	}
 }
+
+// ---- generic messages (no routing constraints) ------------------------------
+
+type anyOpts struct {
+	MaxExt  int
+	MaxLong int // longest extension value (0 = no long values)
+	MaxBody int
+	AllowLF bool
+	Tiny    bool // very small messages (exhaustive cut enumeration)
+}
+
+// gAnyMsg: a well-formed request or response with generic content.
+func gAnyMsg(rt *rapid.T, label string, o anyOpts) *AMsg {
+	p := msgParts{IsReq: rapid.IntRange(0, 2).Draw(rt, label+".isreq") > 0, Version: "SIP/2.0", AllowLF: o.AllowLF}
+	if o.Tiny {
+		if p.IsReq {
+			p.Method = rapid.SampledFrom([]string{"OPTIONS", "INVITE", "BYE", "X"}).Draw(rt, label+".method")
+			p.RURI = AURI{Scheme: "sip", Host: rapid.SampledFrom([]string{"a", "h.test", "10.0.0.1"}).Draw(rt, label+".host")}
+			p.CSeqMethod = p.Method
+		} else {
+			p.Code, p.Reason = rapid.SampledFrom([]int{100, 200, 404}).Draw(rt, label+".code"), rapid.SampledFrom([]string{"OK", "Not Found", "x"}).Draw(rt, label+".reason")
+			p.CSeqMethod = "INVITE"
+		}
+		p.Vias = []AVia{{Proto: "SIP", Ver: "2.0", Transport: "UDP", Host: "h", Port: rapid.SampledFrom([]int{0, 5060}).Draw(rt, label+".vport")}}
+		p.From = ANameAddr{URI: AURI{Scheme: "sip", Host: "a"}, Params: []AParam{{K: "tag", V: "1", HasV: true}}}
+		p.To = ANameAddr{URI: AURI{Scheme: "sip", Host: "b"}}
+		p.CallID = gFromAlphabet(rt, label+".callid", "abc", 1, 3)
+		p.CSeqN = rapid.IntRange(0, 9).Draw(rt, label+".cseq")
+		ne := rapid.IntRange(0, 2).Draw(rt, label+".next")
+		for i := 0; i < ne; i++ {
+			p.Ext = append(p.Ext, AHdr{Kind: hExt, Name: rapid.SampledFrom([]string{"X", "Subject", "c", "k"}).Draw(rt, label+".en"), SP: gSP(rt, label+".sp"),
+				Value: rapid.SampledFrom([]string{"", "a", "a:b", "x y", "\t1"}).Draw(rt, label+".ev")})
+		}
+		nb := rapid.IntRange(0, 3).Draw(rt, label+".bodykind")
+		switch nb {
+		case 1:
+			p.Body = []byte(gFromAlphabet(rt, label+".body", "ab\r\n", 1, 8))
+		case 2:
+			p.Body = []byte("\r\n\r\n")
+		case 3:
+			p.Body = []byte("X sip:a SIP/2.0\r\nl:0\r\n\r\n")
+		}
+		return assemble(rt, label+".layout", p)
+	}
+	if p.IsReq {
+		p.Method = gMethod(rt, label+".method")
+		if rapid.IntRange(0, 3).Draw(rt, label+".absruri") == 0 {
+			p.RURI = gAbsURI(rt, label+".ruri")
+		} else {
+			p.RURI = gSIPURI(rt, label+".ruri", uriOpts{})
+		}
+		p.CSeqMethod = p.Method
+	} else {
+		p.Code, p.Reason = gStatus(rt, label+".code"), gReason(rt, label+".reason")
+		p.CSeqMethod = gMethod(rt, label+".cseqmethod")
+	}
+	nv := rapid.IntRange(1, 4).Draw(rt, label+".nvia")
+	for i := 0; i < nv; i++ {
+		p.Vias = append(p.Vias, gVia(rt, label+".via", viaOpts{}))
+	}
+	nr := rapid.IntRange(0, 2).Draw(rt, label+".nroute")
+	for i := 0; i < nr; i++ {
+		p.Routes = append(p.Routes, gNameAddr(rt, label+".route", naOpts{maxParams: 2, tag: new(string)}))
+	}
+	p.From = gNameAddr(rt, label+".from", naOpts{allowAbs: true, allowBare: true, maxParams: 3})
+	p.To = gNameAddr(rt, label+".to", naOpts{allowAbs: true, allowBare: true, maxParams: 3})
+	p.CallID = gIdent(rt, label+".callid")
+	p.CSeqN = rapid.IntRange(0, 1<<31-1).Draw(rt, label+".cseq")
+	p.Ext = gExtHeaders(rt, label+".ext", o.MaxExt, o.MaxLong)
+	p.Body = gBody(rt, label+".body", o.MaxBody)
+	return assemble(rt, label+".layout", p)
+}
